@@ -321,3 +321,29 @@ func VerifMetricTotals(m *Metrics) []uint64 {
 	}
 	return out
 }
+
+// verifMaxCost reads the policy's capacity whether it is a plain int64 or an atomic wrapper.
+func verifMaxCost[K Key, V any](c *Cache[K, V]) int64 {
+	f, ok := verifPath(c, "cachePolicy", "evict", "maxCost")
+	if !ok {
+		return c.cachePolicy.MaxCost()
+	}
+	var first func(v reflect.Value) (int64, bool)
+	first = func(v reflect.Value) (int64, bool) {
+		switch v.Kind() {
+		case reflect.Int64, reflect.Int:
+			return v.Int(), true
+		case reflect.Struct:
+			for i := 0; i < v.NumField(); i++ {
+				if x, ok := first(v.Field(i)); ok {
+					return x, true
+				}
+			}
+		}
+		return 0, false
+	}
+	if x, ok := first(f); ok {
+		return x
+	}
+	return c.cachePolicy.MaxCost()
+}
